@@ -169,10 +169,10 @@ Lemma step_TI st n a st' :
     apply_lockop (TI n) lo (lks st) = Some (lks st') /\
     dat st' = d' /\ ing st' = upd n p' (ing st) /\ fl st' = fl st /\ qs st' = qs st.
 Proof.
-  unfold step. destruct (nth_error (ing st) n) as [p|]; [|discriminate].
-  destruct (itrans p a (dat st)) as [[[lo p'] d']|]; [|discriminate].
-  destruct (apply_lockop (TI n) lo (lks st)) as [l'|]; [|discriminate].
-  intro H. injection H as <-. exists p, lo, p', d'. simpl. repeat split; reflexivity.
+  unfold step. destruct (nth_error (ing st) n) as [p|] eqn:E1; [|discriminate].
+  destruct (itrans p a (dat st)) as [[[lo p'] d']|] eqn:E2; [|discriminate].
+  destruct (apply_lockop (TI n) lo (lks st)) as [l'|] eqn:E3; [|discriminate].
+  intro H. injection H as <-. exists p, lo, p', d'. simpl. repeat split; try reflexivity; assumption.
 Qed.
 
 Lemma step_TQ st n a st' :
@@ -182,10 +182,10 @@ Lemma step_TQ st n a st' :
     apply_lockop (TQ n) lo (lks st) = Some (lks st') /\
     dat st' = d' /\ qs st' = upd n p' (qs st) /\ fl st' = fl st /\ ing st' = ing st.
 Proof.
-  unfold step. destruct (nth_error (qs st) n) as [p|]; [|discriminate].
-  destruct (qtrans p a (dat st)) as [[[lo p'] d']|]; [|discriminate].
-  destruct (apply_lockop (TQ n) lo (lks st)) as [l'|]; [|discriminate].
-  intro H. injection H as <-. exists p, lo, p', d'. simpl. repeat split; reflexivity.
+  unfold step. destruct (nth_error (qs st) n) as [p|] eqn:E1; [|discriminate].
+  destruct (qtrans p a (dat st)) as [[[lo p'] d']|] eqn:E2; [|discriminate].
+  destruct (apply_lockop (TQ n) lo (lks st)) as [l'|] eqn:E3; [|discriminate].
+  intro H. injection H as <-. exists p, lo, p', d'. simpl. repeat split; try reflexivity; assumption.
 Qed.
 
 Lemma step_TF st a st' :
@@ -196,9 +196,9 @@ Lemma step_TF st a st' :
     dat st' = d' /\ fl st' = p' /\ ing st' = ing st /\ qs st' = qs st.
 Proof.
   unfold step.
-  destruct (ftrans (fl st) a (dat st)) as [[[lo p'] d']|]; [|discriminate].
-  destruct (apply_lockop TF lo (lks st)) as [l'|]; [|discriminate].
-  intro H. injection H as <-. exists lo, p', d'. simpl. repeat split; reflexivity.
+  destruct (ftrans (fl st) a (dat st)) as [[[lo p'] d']|] eqn:E2; [|discriminate].
+  destruct (apply_lockop TF lo (lks st)) as [l'|] eqn:E3; [|discriminate].
+  intro H. injection H as <-. exists lo, p', d'. simpl. repeat split; try reflexivity; assumption.
 Qed.
 
 (* ---------------------------------------------------------------------------------------------- *)
